@@ -15,6 +15,7 @@ structure S where
   allRead : Bool
   pieces : List (List UInt8)
   fail : Bool          -- after the pieces the reader fails with a non-EOF error
+  err : Bool := false  -- readErr is set (here: a NUL byte of the input was met): every later read fails
 deriving Repr, DecidableEq
 
 def initBufSize : Nat := 512
@@ -39,12 +40,6 @@ def readerRead (pieces : List (List UInt8)) (fail : Bool) (room : Nat) :
   | [] => ([], [], if fail then .other else .eof)
   | p :: r => (p.take room, (p.drop room) :: r, .none)
 
-/-- number of bytes before the first NUL among the first `n` bytes -/
-def countNonNul : List UInt8 → Nat → Nat
-  | _, 0 => 0
-  | [], _ => 0
-  | b :: r, n + 1 => if b == 0 then 0 else 1 + countNonNul r n
-
 /-- overwrite `l` from index `i` with `src` (as `copy(l[i:], src)`) -/
 def overwrite (l : List UInt8) (i : Nat) (src : List UInt8) : List UInt8 :=
   l.take i ++ (src.take (l.length - i)) ++ l.drop (i + (src.take (l.length - i)).length)
@@ -53,15 +48,16 @@ def setAt (l : List UInt8) (i : Nat) (v : UInt8) : List UInt8 := l.set i v
 
 /-- `read()`: `none` = a run-time panic (index out of range) -/
 def read (s : S) : Option (Bool × S) :=
-  if s.allRead then some (false, s)
+  -- the NUL the scanner stopped at is inside the buffered data: a NUL byte of the input (the caller
+  -- gets `false`, the Decoder reports the sticky error)
+  if s.cursor < s.length && s.buf.getD s.cursor 1 == 0 then some (false, { s with err := true })
+  else if s.allRead || s.err then some (false, s)
   else
     -- readBuf
     let (buf1, bufSize1) :=
       if s.filled then (s.buf ++ List.replicate (s.bufSize * 2 - s.buf.length) 0, s.bufSize * 2)
       else (s.buf, s.bufSize)
-    let remainLen := s.length - s.cursor
-    let cnt := countNonNul (buf1.drop s.cursor) remainLen
-    let length1 := s.cursor + cnt
+    let length1 := s.length
     let space := buf1.length - length1           -- len(buf[cursor+cnt:])
     if space == 0 then none                      -- last = -1: buf[last] panics
     else
